@@ -153,6 +153,9 @@ def run_login(w, sc, mon):
     decide("other_name", 0, other, K, want, cs)
     if len(un) < 16:
         decide("name_extended", 0, un + "A", K, want, cs)
+    # finish with the honest presentation again, so that the last computation of this login is the honest one
+    # (the next login on this executor may be a related one: swapped seeds, same XOR, ...)
+    decide("honest_again", 0, sc["user"], K, want, cs)
     mon.sample({"module": x, "user": sc["user"], "cseed": cs, "sseed": ss, "proof": proof.hex()}, cap=5)
 
 
